@@ -4,3 +4,4 @@ import XdistModel.Sched.Load
 import XdistModel.Sched.WorkSteal
 import XdistModel.Sched.LoadScope
 import XdistModel.Sched.Each
+import XdistModel.Worker.Interactor
